@@ -77,6 +77,11 @@ where
                 obs(5, &seen)
             }
             "drain" => obs(5, &rb.drain().take(a[0] as usize).collect::<Vec<_>>()),
+            "drainnth" => opt(rb.drain().nth(a[0] as usize)),
+            "drainskip" => opt(rb.drain().skip(a[0] as usize).next()),
+            "iternth" => opt(rb.iter().nth(a[0] as usize).cloned()),
+            "iterrev" => obs(5, &rb.iter().rev().cloned().collect::<Vec<_>>()),
+            "iterlast" => opt(rb.iter().last().cloned()),
             "drainlen" => {
                 let d = rb.drain();
                 let (lo, hi) = d.size_hint();
